@@ -245,6 +245,7 @@ PROPS["C05"]["parts"][0]["quick"]["sample"] = 900
 _G_HTTPCUT = dict(dgen(GKinds='{"ok", "http_cut", "http"}', Balancers='{"round-robin"}', Framings='{"cl", "chunked"}'), always=True)
 # the client walks away from a slow, healthy answer after its first bytes; the next step samples the gauges again
 _G_CABORT = dict(dgen(GKinds='{"ok", "cabort", "refuse"}', Balancers='{"round-robin"}', Framings='{"cl", "chunked"}', NSteps=2), always=True)
+_G_CABORT_TR = dict(dgen(GKinds='{"cabort", "refuse"}', Balancers='{"round-robin"}', Framings='{"chunked"}', Routes='{"anthropic_stream"}', NSteps=2), always=True)
 # the global and the translator scope of the statistics are C19's own clauses (and KF-C19-3 is C19's finding)
 _C19_TRACE = dict(_DISPATCH_BASE["trace"], params={"Scopes": '{"global", "translator"}'})
 PROPS["C19"] = {
@@ -252,8 +253,8 @@ PROPS["C19"] = {
             "all gauges/counters are read at quiescence.",
     "exhaustive": False,
     "assumptions": ["quiescence = all clients returned and the collector's numbers unchanged for 150 ms"],
-    "parts": [dict(dpart([_G_SINGLE2, _G_BURST, _G_BREAKER, _G_TRSTATS, _G_TRSTATS_NATIVE, _G_HTTPCUT, _G_CABORT],
-                         [_G_SINGLE3, _G_BURST, _G_BREAKER, _G_TWOSTEP, _G_FAIL, _G_TRSTATS, _G_TRSTATS_NATIVE, _G_HTTPCUT, _G_CABORT], 8000),
+    "parts": [dict(dpart([_G_SINGLE2, _G_BURST, _G_BREAKER, _G_TRSTATS, _G_TRSTATS_NATIVE, _G_HTTPCUT, _G_CABORT, _G_CABORT_TR],
+                         [_G_SINGLE3, _G_BURST, _G_BREAKER, _G_TWOSTEP, _G_FAIL, _G_TRSTATS, _G_TRSTATS_NATIVE, _G_HTTPCUT, _G_CABORT, _G_CABORT_TR], 8000),
                    trace=_C19_TRACE),
               dict(dpart([_G_PANIC], [_G_PANIC]), name="panic", mc=[], env={"VERIF_PAR": "1"}, trace=_C19_TRACE)],
 }
